@@ -22,31 +22,35 @@ RELEVANT_STATE = {"Unreadable", "Dangling"}
 RELEVANT_STEP = {"RealReadFails", "FailReported"}
 
 
-def under_test(rng, nsn, alive, files, kd):
-    """(pre-steps, command under test)"""
-    r = rng.random()
+KINDS = ["backup", "prune", "repair_index_all", "prune", "repair_snapshots", "forget", "repair_index", "prune",
+         "config", "merge", "backup", "rewrite", "add_key", "prune", "repair_index_all"]
+
+
+def under_test(rng, i, nsn, alive, files, kd):
+    """(pre-steps, command under test); kinds cycle so that every tier covers every command"""
+    kind = KINDS[i % len(KINDS)]
     pre = []
-    if r < 0.25:
+    if kind == "backup":
         return pre, {"cmd": "backup", "files": gen.evolve(rng, files)}
-    if r < 0.35 and alive:
+    if kind == "forget" and alive:
         return pre, {"cmd": "forget", "snaps": rng.sample(alive, rng.randint(1, len(alive)))}
-    if r < 0.65:
-        return pre, {"cmd": "prune", "opts": gen.prune_opts(rng, kd, allow_instant=True, allow_early=False)}
-    if r < 0.72:
-        if rng.random() < 0.6:
+    if kind in ("repair_index", "repair_index_all"):
+        if rng.random() < 0.5:
             pre.append({"cmd": "damage", "kind": "index", "which": rng.randint(0, 3)})
-        return pre, {"cmd": "repair_index", "read_all": rng.random() < 0.4}
-    if r < 0.80:
+        return pre, {"cmd": "repair_index", "read_all": kind == "repair_index_all"}
+    if kind == "repair_snapshots":
         pre.append({"cmd": "damage", "kind": rng.choice(["pack_data", "pack_data", "pack_tree"]), "which": rng.randint(0, 5)})
         pre.append({"cmd": "repair_index"})
         return pre, {"cmd": "repair_snapshots", "delete": rng.random() < 0.5}
-    if r < 0.86:
+    if kind == "config":
         return pre, {"cmd": "config", "compression": rng.choice([1, 3]), "pack": rng.choice([150, 400])}
-    if r < 0.90:
+    if kind == "add_key":
         return pre, {"cmd": "add_key"}
-    if r < 0.95:
+    if kind == "merge":
         return pre, {"cmd": "merge"}
-    return pre, {"cmd": "rewrite", "glob": rng.choice(["a", "b", "x", "*"]), "forget": rng.random() < 0.5}
+    if kind == "rewrite":
+        return pre, {"cmd": "rewrite", "glob": rng.choice(["a", "b", "x", "*"]), "forget": rng.random() < 0.5}
+    return pre, {"cmd": "prune", "opts": gen.prune_opts(rng, kd, allow_instant=True, allow_early=False)}
 
 
 def programs(seed, n):
@@ -55,12 +59,13 @@ def programs(seed, n):
     progs = []
     for i in range(n):
         steps, nsn, alive, files = gen.history(rng, rng.randint(1, 4), kd, allow_instant=True)
-        pre, cut = under_test(rng, nsn, alive, files, kd)
+        pre, cut = under_test(rng, i, nsn, alive, files, kd)
         cfg = gen.rand_cfg(rng)
         if cut["cmd"] == "config":
             cfg.pop("version", None)
         progs.append({"id": "c03-%d-%d" % (seed, i), "seed": seed * 1000 + i, "cfg": cfg, "probe": "none",
-                      "steps": steps + pre + [cut], "sweep": len(steps) + len(pre), "cut": cut["cmd"]})
+                      "steps": steps + pre + [cut], "sweep": len(steps) + len(pre),
+                      "cut": cut["cmd"] + ("-read-all" if cut.get("read_all") else "")})
     return progs
 
 
